@@ -115,6 +115,34 @@ def sentence_path_cases(rng, tier):
                 out.append(L(0, 1, gen.sentence(pay[:-1] + bytes([gen.armor_char(rng.randrange(64))]), fill)))
     return out
 
+def line_length_cases(rng, tier):
+    """C04/C07/C09 (fixed-offset fast paths): single sentences of every total length, for every length of the
+    channel field, decodable at every length (binary broadcast / safety text / addressed binary)"""
+    out = []
+    for chan in (b'', b'A', b'B', b'AB', b'1'):
+        for t in (8, 14, 6):
+            for n in range(8, 84):
+                for sid, start in [(None, b'!')] * (8 if chan in (b'', b'A') else 2) + [(None, b'$'), (3, b'!')]:
+                    bits = gen.message_bits(rng, t, rng.choice(['random', 'ones', 'mixed']))
+                    bits = (bits + ''.join(rng.choice('01') for _ in range(6 * n)))[:6 * n]
+                    pay, fill = gen.armor(bits)
+                    out.append('H'); out.append(L(0, 1, gen.sentence(pay, fill, sid=sid, chan=chan, start=start)))
+    return out
+
+def id_pair_cases(rng, tier):
+    """C06/C05: two-fragment groups whose sentences spell the sequence id in every pair of ways (absent, 0, 255,
+    leading zeros, neighbours of the type's bounds): only equal ids may continue a group"""
+    out = []
+    ids = [None, 0, 1, 9, 10, 99, 100, 127, 128, 254, 255, b'00', b'000', b'01', b'010', b'0255', b'256']
+    for a in ids:
+        for b in ids:
+            for d in (0, 1):
+                out.append('H')
+                out.append(L(0, d, gen.sentence(b'55M', 0, 2, 1, a)))
+                out.append(L(0, d, gen.sentence(b'66', 0, 2, 2, b)))
+                out.append(L(0, d, gen.sentence(b'77', 0, 2, 2, a)))
+    return out
+
 def bulk_cases(rng, tier, types=None, per_type=None):
     """plain volume: plausible payloads of every type (identities with decimal structure, all other
     fields uniformly random) — finds dependences of a field on the *value* of another field that
@@ -169,12 +197,30 @@ def poisoned_parser_cases(rng, tier, types=None):
         u = rng.choice([0, 22, 23, 25, 26, 28, 40, 63])
         yield gen.sentence(bytes([gen.armor_char(u)]) + pay[1:], fill)                       # unsupported type
         yield gen.sentence(bytes(rng.choice(gen.ALPHABET) for _ in range(rng.choice([1, 5, 60]))), rng.randrange(6))
+    def priors():
+        """things a parser may have seen before: failing lines, and *accepted* traffic that leaves something
+        behind in a careless implementation — a delivered group whose non-final fragments announce fill
+        bits, an abandoned group, a long binary message, a sentence with the maximal fill count"""
+        for b in bad_lines(): yield [(1, b)]
+        t2 = rng.choice([5, 8, 19, 21, 6])
+        pay, fill = gen.armor(gen.message_bits(rng, t2, 'ones'), '111111')
+        n = rng.choice([2, 3])
+        cuts = sorted(rng.sample(range(1, len(pay)), n - 1))
+        parts = [pay[a:b] for a, b in zip([0] + cuts, cuts + [len(pay)])]
+        sid = rng.choice([None, 2])
+        # fill count announced on the first / on every sentence of the group, 0 on the last
+        yield [(1, gen.sentence(p, (rng.randrange(1, 6) if i < n - 1 else 0), n, i + 1, sid)) for i, p in enumerate(parts)]
+        yield [(1, gen.sentence(p, 5, n, i + 1, sid)) for i, p in enumerate(parts)]
+        yield [(rng.randrange(2), gen.sentence(p, 0, n, i + 1, sid)) for i, p in enumerate(parts[:-1])]       # abandoned
+        long8, f8 = gen.armor(gen.message_bits(rng, 8, 'ones') + '1' * 600, '11111')
+        yield [(1, gen.sentence(long8, f8))]
+        yield [(1, gen.sentence(gen.armor(gen.message_bits(rng, 14) + '111111' * 7 + '1', '11111')[0], 5))]
     for t in types:
-        for _ in range(scale(tier, 6, 60)):
-            good, gfill = gen.armor(gen.message_bits(rng, t, 'random'))
-            for bad in bad_lines():
+        for _ in range(scale(tier, 4, 40)):
+            good, gfill = gen.armor(gen.message_bits(rng, t, rng.choice(['random', 'ones', 'mixed'])))
+            for prior in priors():
                 out.append('H')
-                out.append(L(0, 1, bad))
+                for d, l in prior: out.append(L(0, d, l))
                 out.append(L(0, 1, gen.sentence(good, gfill)))
                 out.append(L(0, 1, gen.sentence(good, gfill)))
     for u in range(64):     # every type value after a poisoned line
@@ -404,6 +450,12 @@ def unarmor_cases(rng, tier):
             for fill in range(6):
                 ctx = bytes(rng.choice(A) for _ in range(pos)) + bytes([b]) + bytes(rng.choice(A) for _ in range(rng.randrange(0, 5)))
                 out.append(U(fill, ctx))
+    # runs of one byte value — whole groups of an invalid byte, not only one invalid byte among valid ones
+    for b in range(256):
+        for n in (2, 3, 4, 5, 8, 12):
+            out.append(U(rng.randrange(6), bytes([b]) * n))
+        out.append(U(0, bytes([b]) * 4 + b'15M:Ih001'))
+        out.append(U(rng.randrange(6), b'15M0' + bytes([b]) * 4 + b'1'))
     # all strings up to length 2 over all bytes (length 2: boundary bytes x all bytes)
     for fill in range(6):
         out.append(U(fill, b''))
@@ -773,10 +825,13 @@ def reassembly_cases(rng, tier):
         n = rng.choice([2, 2, 3, 4, 5, 6, 7, 8, 9, 9, 10, 12])
         n = min(n, len(pay))
         sid = rng.choice([None, 0, 1, 5, 9, 10, 42, 255, b'007', b'00'])
+        if rng.random() < 0.12:      # a group that no decoder exists for / that cannot be unarmored
+            pay = rng.choice([bytes([gen.armor_char(rng.choice([0, 22, 23, 25, 26, 28, 63]))]) + pay[1:], pay[:3] + b'x' + pay[4:]])
         frs = gen.fragment(rng, pay, fill, n, sid)
         prior = rng.randrange(5)
         out.append('H c')
         d = rng.randrange(2)
+        mixed = rng.random() < 0.35       # every line with its own decode flag
         if prior == 1:   # abandoned group
             for l in gen.fragment(rng, pay, fill, max(2, n), rng.choice([sid, 3]))[:rng.randrange(1, max(2, n))]: out.append(L(0, d, l))
         elif prior == 2:  # just-delivered group
@@ -793,7 +848,7 @@ def reassembly_cases(rng, tier):
                                 gen.sentence(bytes([gen.armor_char(rng.choice([0, 22, 23, 25, 26, 28, 63]))]) + bytes(rng.choice(gen.ALPHABET) for _ in range(27)), 0),
                                 gen.sentence(b'1', 0), gen.sentence(b'1x5', 0)])
                 out.append(C(0, rng.randrange(2), x))
-            out.append(C(0, d, fr))
+            out.append(C(0, rng.randrange(2) if (mixed and fr is not frs[-1]) else d, fr))    # the last line and the unfragmented twin share their flag
         out.append(C(0, d, gen.sentence(pay, fill)))     # the same payload unfragmented
     # consecutive fragments that look alike: same length and same checksum (the only difference a receiver
     # can rely on is the fragment number), identical payload parts, and parts differing in one character
